@@ -696,11 +696,23 @@ def format_value(it, v, spec, node=None):
         return to_str(it, v, node)
     # [[fill]align][0][width][type]
     import re
-    m = re.fullmatch(r'([<>^])?(0)?(\d+)?([xXdsb])?', spec)
+    m = re.fullmatch(r'([<>^])?(#)?(0)?(\d+)?([xXdsb])?', spec)
     if not m:
         raise Unsupported('format spec %r' % spec)
-    align, zero, width, typ = m.groups()
+    align, alt, zero, width, typ = m.groups()
     width = int(width) if width else 0
+    if alt and typ == 'x' and not width and not align:
+        # '#x' renders like hex() for a non-negative int (recorded words are non-negative)
+        if isinstance(v, int):
+            return format(v, spec)
+        if isinstance(v, SOpt):
+            it.raise_if(z3.Not(v.present), 'TypeError', 'none-format', node)
+            v = v.val
+        if not is_intlike(v):
+            raise Unsupported('hex format of %s' % type(v).__name__)
+        return SStr([('hex', zi(v))])
+    if alt:
+        raise Unsupported('format spec %r' % spec)
     if typ in ('x', 'X'):
         if isinstance(v, int):
             return format(v, spec)
